@@ -26,7 +26,8 @@ func init() {
 			"T6 the package's iterator constructors return the same reset capability on every path; " +
 			"T5 a successful Reset restores exactly the state Init establishes (every field iteration writes), and fails with an error otherwise. T7: the same merge-step clauses T1-T4 hold from every state reached through a Reset that returned an error (sources that were not reset keep position and look-ahead, sources that were reset restart). T8: Init sets every boolean/integer control field, so a Mixer may be initialised again (the statement speaks of the mixer, not of a Mixer value used once). " +
 			"T9: no path of Init/HasNext/Next/Reset calls Close of a source (observed as an environment call on every reachable abstract state): an iterator must not be used after Close, so a source closed before the mixer's own Close cannot be restarted by Reset. " +
-			"T10: every type of the package that is an Iterator and a golibs.Reseter whose Reset can return nil (the slice iterator, the Mixer as the input of another mixer) replays: every field, memory reached through a field, or nested iterator that its HasNext/Next (and what they call) modify is written again - or reset through golibs.Reseter - by its Reset; Mixer.Reset relies on exactly this when it takes a nil answer of a source's Reset for a restart.",
+			"T10: every type of the package that is an Iterator and a golibs.Reseter whose Reset can return nil (the slice iterator, the Mixer as the input of another mixer) replays: every field, memory reached through a field, or nested iterator that its HasNext/Next (and what they call) modify is written again - or reset through golibs.Reseter - by its Reset; Mixer.Reset relies on exactly this when it takes a nil answer of a source's Reset for a restart. " +
+			"T11: the exploration is closed under every exported method of the Mixer that writes a field or advances/resets/closes a source (found by its footprint): such a method is interpreted from every reachable abstract state like Reset (function-typed parameters answered nondeterministically, environment-bounded loops cut when the abstract state repeats), it may discard look-ahead elements, and T1-T4/T9 must hold in it and in every state reachable after it - a selection kept in force across a change of the heads shows up as an element emitted without the selector having been consulted for the current heads, or from an empty look-ahead.",
 		NotDecided: "the merged sequence as a value (induction over the inputs); behaviour of ill-behaved sources whose HasNext is not monotone.",
 	})
 }
@@ -50,6 +51,8 @@ func runC18(c *Ctx) {
 	// T9 (census part) and T10 do not depend on the interpretation below (v_mixer.go)
 	c.noCloseOutsideInterpretation(c18T9, "container/iterable", hasNext, next, reset)
 	c.resettableIteratorsReplay(c18T10, "container/iterable", mixer)
+	// T11 (v_mixer_g.go): further exported methods of the Mixer that change its state join the exploration
+	ext := c.c18Extensions(mixer, "container/iterable", initFn, hasNext, next, reset)
 	pkg := c.P.SSAPkg("container/iterable")
 	follow := func(fn *ssa.Function) bool {
 		root := fn
@@ -72,7 +75,10 @@ func runC18(c *Ctx) {
 	report := map[string]bool{}
 	afterRefusedReset := false // the state being explored has a refused Reset in its history
 	fail := func(rule, what, detail string) {
-		if afterRefusedReset {
+		var inFn *ssa.Function
+		if ext.after != "" {
+			rule, what, detail, inFn = ext.relabel(rule, what, detail)
+		} else if afterRefusedReset {
 			// the same clauses, but only reachable through a Reset that returned an error: its own obligation
 			what = "after a refused Reset: " + what
 			detail = "reachable only after a Reset that returned an error (a source cannot be reset): " + detail
@@ -82,7 +88,10 @@ func runC18(c *Ctx) {
 		if !report[k] {
 			report[k] = true
 			violations = append(violations, k)
-			c.Decide(rule, curFn(), what, nil, false, detail)
+			if inFn == nil {
+				inFn = curFn()
+			}
+			c.Decide(rule, inFn, what, nil, false, detail)
 		}
 	}
 
@@ -146,6 +155,9 @@ func runC18(c *Ctx) {
 				}
 				return ai.Bool(h)
 			case name == "Next":
+				if mm.pend[k] && ext.mode {
+					mm.pend[k] = false // T11: a state-changing method outside the merge step may discard a look-ahead
+				}
 				if mm.pend[k] {
 					fail("C18.T1", "source advanced only with an empty look-ahead", fmt.Sprintf("%s: source %d is asked for its next element while its previous element is still in the look-ahead: that element is lost", curOp, k+1))
 				}
@@ -181,6 +193,9 @@ func runC18(c *Ctx) {
 				return ai.Const{}
 			}
 			return nil
+		}
+		if v := ext.answerParam(recv, name, res, choose); v != nil {
+			return v
 		}
 		if t, ok := recv.(ai.Tok); ok && t.Name == "sf" && name == "call" {
 			okArgs := len(args) == 2 && args[0].String() == elemTok(0).String() && args[1].String() == elemTok(1).String()
@@ -300,9 +315,21 @@ func runC18(c *Ctx) {
 			work = append(work, st)
 		}
 	}
-	for len(work) > 0 {
+	for len(work) > 0 || ext.begin(seen, len(violations) == 0, func(st *ai.State) [2]bool { return getM(st).pend }) {
+		if len(work) == 0 {
+			// second round (T11): every state reached so far again, now with the state-changing methods
+			var ks []string
+			for k := range seen {
+				ks = append(ks, k)
+			}
+			sort.Strings(ks)
+			for _, k := range ks {
+				work = append(work, seen[k])
+			}
+		}
 		s := work[0]
 		work = work[1:]
+		ext.tag(s)
 		afterRefusedReset = false
 		if b, ok := ai.AsBool(s.Mem["model.refused"]); ok && b {
 			afterRefusedReset = true
@@ -456,7 +483,14 @@ func runC18(c *Ctx) {
 			ns.Mem["model.refused"] = ai.Bool(true)
 			push(ns)
 		}
+		// --- T11: the state-changing methods outside the merge step
+		if !ext.step(s, env, recv, func(op string) { curOp = op }, fresh, push,
+			func(st *ai.State) [2]bool { return getM(st).pend },
+			func(st *ai.State, k int) { mm := getM(st); mm.pend[k] = false; mm.dec = 0; putM(st, mm) }, fail) {
+			return
+		}
 	}
+	ext.finish()
 	c.R.Role("typestate exploration", fmt.Sprintf("%d reachable (implementation x look-ahead automaton) states, %d abstract transitions", len(seen), nTrans))
 	if len(seen) >= 5000 {
 		c.Undecided("C18.T1", nil, "state space", nil, "abstract state space exceeded 5000 states")
